@@ -7,6 +7,16 @@ from .. import gen
 BLOCK_LIMIT = 0.25       # virtual seconds a single loop step may block
 
 
+ODD_ARGS = ['$(circus.env.DEPLOYMENT_ENVIRONMENT:-production)',
+            '((circus.env.A_LONG_VARIABLE_NAME_X|x))',
+            '$(circus.sockets.' + 'x' * 22 + '!', '$(date +%s)',
+            '--opt=$(circus.wid)', '$(circus.' + 'a-b_' * 5 + 'ab )',
+            '$$(circus.wid)', '((circus.wid', '$(circus.env.' + 'Q' * 22]
+
+# CPU seconds one loop step may compute (typical: microseconds)
+CPU_LIMIT = 0.5
+
+
 class C05Episode(Episode):
     def setup(self):
         super().setup()
@@ -24,6 +34,19 @@ class C05Episode(Episode):
 
     def after_step(self):
         s = self.world.sim
+        if s.step_cpu > CPU_LIMIT and not getattr(self, '_cpu_reported', 0):
+            # CPU time of this thread: one loop step computed for a long time
+            # (no sleeping involved - pathological regular expressions ...)
+            self._cpu_reported = 1
+            self.viol('event_loop_dead',
+                      'one event-loop step computed for %.1f CPU seconds '
+                      '(operations in flight: %s)'
+                      % (s.step_cpu, [r.cmd for r in
+                                      self.world.outstanding()][:4]),
+                      once='cpu', spin_in='cpu', via='computation')
+            # (the episode ends here: every further spawn would compute as
+            # long again)
+            s.capped = 'cpu_stall'
         if s.step_blocked > BLOCK_LIMIT and not s.hung and \
                 not self.reported_block:
             self.reported_block = True
@@ -201,6 +224,15 @@ class C05(Prop):
                                                               False]),
                                kinds=('obedient', 'slow', 'stubborn',
                                       'selfexit', 'selective'))
+        if rng.random() < 0.2:
+            # command lines with text that looks like a variable reference
+            # but is none (shell defaults, typos): formatting them is part of
+            # every spawn and runs on the loop
+            for wc in cfg['watchers']:
+                if rng.random() < 0.6:
+                    wc['cmd'] = 'worker --marker=%s %s' % (
+                        wc['marker'], ' '.join(rng.sample(ODD_ARGS,
+                                                          rng.choice([1, 2]))))
         if rng.random() < 0.25:
             cfg['exec_fail'] = {str(rng.randrange(1, 12)): rng.choice(
                 [2, 13, 11, 24, 12]) for _ in range(rng.choice([1, 2, 3]))}
